@@ -7,6 +7,7 @@ EXTENDS AnkoSem, Json
 CONSTANT Fuel
 Progs == ndJsonDeserialize("progs.ndjson")
 
+Ext(p) == IF "ext" \in DOMAIN p THEN {p.ext[j] : j \in 1..Len(p.ext)} ELSE {}
 VARIABLES i, done
 vars == <<i, done>>
 
@@ -14,6 +15,6 @@ Init == i \in 1..Len(Progs) /\ done = FALSE
 Next == /\ ~done
         /\ done' = TRUE
         /\ i' = i
-        /\ PrintT(ToJson([id |-> Progs[i].id, exp |-> Run(Progs[i].prog, Fuel)]))
+        /\ PrintT(ToJson([id |-> Progs[i].id, exp |-> RunX(Progs[i].prog, Fuel, Ext(Progs[i]))]))
 Spec == Init /\ [][Next]_vars
 =============================================================================
